@@ -269,6 +269,13 @@ def default_of(mod, fn, param):
     fail('Coordinates.%s not found' % fn)
 
 
+def callee_params(mod, fn):
+    for n in mod.tree.body:
+        if isinstance(n, ast.FunctionDef) and n.name == fn:
+            return [a.arg for a in n.args.args]
+    fail('Coordinates.%s not found' % fn)
+
+
 def wrappers(mods, coord):
     """Translate the one-line wrapper methods: [(planet, method, params, callee, [table vars], flag expr)]"""
     out = []
@@ -290,10 +297,27 @@ def wrappers(mods, coord):
             if body and isinstance(body[0], ast.Expr) and isinstance(body[0].value, ast.Constant) \
                     and isinstance(body[0].value.value, str):
                 body = body[1:]
-            if not (len(body) == 1 and isinstance(body[0], ast.Return) and isinstance(body[0].value, ast.Call)):
+            # accepted bodies:  `return f(...)`   or   `a, b, c = f(...)` / `res = f(...)` followed by a `return` of
+            # exactly those names in that order (the same value, named first)
+            call = None
+            if len(body) == 1 and isinstance(body[0], ast.Return) and isinstance(body[0].value, ast.Call):
+                call = body[0].value
+            elif len(body) == 2 and isinstance(body[0], ast.Assign) and len(body[0].targets) == 1 \
+                    and isinstance(body[0].value, ast.Call) and isinstance(body[1], ast.Return) \
+                    and body[1].value is not None:
+                def names_of(n):
+                    if isinstance(n, ast.Name):
+                        return [n.id]
+                    if isinstance(n, ast.Tuple) and all(isinstance(e, ast.Name) for e in n.elts):
+                        return [e.id for e in n.elts]
+                    return None
+                lhs, rhs = names_of(body[0].targets[0]), names_of(body[1].value)
+                if lhs is not None and lhs == rhs and len(set(lhs)) == len(lhs) \
+                        and type(body[0].targets[0]) is type(body[1].value):
+                    call = body[0].value
+            if call is None:
                 fail(where + ': body is not a single `return f(...)`')
-            call = body[0].value
-            if not (isinstance(call.func, ast.Name) and call.func.id in CALLEES) or call.keywords:
+            if not (isinstance(call.func, ast.Name) and call.func.id in CALLEES):
                 fail(where + ': unexpected callee ' + ast.unparse(call.func))
             kind, flag = CALLEES[call.func.id]
             params = [a.arg for a in f.args.args]
@@ -305,10 +329,34 @@ def wrappers(mods, coord):
                 pdef[a] = d.value
             if f.args.vararg or f.args.kwarg or f.args.kwonlyargs:
                 fail(where + ': unexpected signature')
-            args = call.args
-            if not all(isinstance(a, ast.Name) for a in args):
+            # keyword arguments are put in the callee's positional order
+            args = list(call.args)
+            if call.keywords:
+                cnames = callee_params(coord, call.func.id)
+                if any(k.arg is None for k in call.keywords) or len(args) > len(cnames):
+                    fail(where + ': unexpected keyword arguments')
+                slots = dict(zip(cnames, args))
+                for k in call.keywords:
+                    if k.arg not in cnames or k.arg in slots:
+                        fail(where + ': unexpected keyword argument ' + str(k.arg))
+                    slots[k.arg] = k.value
+                args = []
+                for cn in cnames:
+                    if cn in slots:
+                        args.append(slots[cn])
+                    elif any(c in slots for c in cnames[cnames.index(cn) + 1:]):
+                        fail(where + ': keyword arguments skip parameter ' + cn)
+                    else:
+                        break
+            def plain(a):
+                if isinstance(a, ast.Name):
+                    return a.id
+                if isinstance(a, ast.Constant) and isinstance(a.value, bool):
+                    return 'true' if a.value else 'false'
+                return None
+            an = [plain(a) for a in args]
+            if any(a is None for a in an):
                 fail(where + ': arguments are not plain names')
-            an = [a.id for a in args]
             if not an or an[0] != 'epoch' or params[:1] != ['epoch']:
                 fail(where + ': first argument is not epoch')
             ntab = 3 if kind == 'vsop' else 2
@@ -323,7 +371,7 @@ def wrappers(mods, coord):
             if kind == 'vsop':
                 if len(rest) == 0:
                     flagexpr = 'true' if sigs[call.func.id][1] else 'false'
-                elif len(rest) == 1 and rest[0] in params[1:]:
+                elif len(rest) == 1 and (rest[0] in params[1:] or rest[0] in ('true', 'false')):
                     flagexpr = rest[0]
                 else:
                     fail(where + ': unexpected trailing arguments')
